@@ -32,7 +32,28 @@ func c05_13(c *core.Ctx, p *core.Prog) {
 		c.Undecided("anchors|split", p.Pos(a.sendFn.Pos()), core.FuncName(a.sendFn), "splitBatch call not found in the sending function")
 		return
 	}
-	skip, _ := (core.PathQuery{Fn: a.sendFn, From: split, Avoid: func(i ssa.Instruction) bool { return i == ssa.Instruction(a.goInstr) }, ExitReturnOnly: true}).Exists()
+	// "nothing was taken out" is a legitimate early exit: the edge on which the count returned by splitBatch is zero
+	cut := map[core.Edge]bool{}
+	if sv, ok := split.(ssa.Value); ok {
+		for _, b := range a.sendFn.Blocks {
+			iff := core.IfOf(b)
+			if iff == nil {
+				continue
+			}
+			subj, zeroOnTrue, ok := zeroCond(iff.Cond)
+			if !ok {
+				continue
+			}
+			if ex, isEx := core.Canon(core.StripConv(subj)).(*ssa.Extract); isEx && ex.Tuple == sv && ex.Index == 0 {
+				idx := 1
+				if zeroOnTrue {
+					idx = 0
+				}
+				cut[core.Edge{From: b, To: b.Succs[idx]}] = true
+			}
+		}
+	}
+	skip, _ := (core.PathQuery{Fn: a.sendFn, From: split, Avoid: func(i ssa.Instruction) bool { return i == ssa.Instruction(a.goInstr) }, CutEdges: cut, ExitReturnOnly: true}).Exists()
 	c.Check(!skip, "send|split-to-go", p.Pos(split.Pos()), core.FuncName(a.sendFn),
 		"every path from splitBatch to a return of the sending function spawns the export goroutine",
 		"a return is reachable between splitBatch (which removed the items from the buffer) and the spawn of the export goroutine: the items of that request are exported nowhere and, with early return, their callers were already told success")
